@@ -163,6 +163,31 @@ def run(ctx):
                     bad.setdefault("mutation:prox." + name, ("prox %s modified its input or an array it was built from" % name, {"prox": name, "layout": tag}))
                 if not np.array_equal(o1, o2):
                     bad.setdefault("determinism:prox." + name, ("prox %s not deterministic" % name, {"prox": name}))
+    # dedicated stream: Conj / scaling / stacking of genuinely complex operators applied to arrays stored in a REAL dtype
+    from vlib import lingen
+    for k in range(ctx.n(60, 1500)):
+        try:
+            A = lingen.gen_tree(sp, rng, rng.choice([0, 1, 1, 2]), None, lingen.EXACT_LEAVES, True, [])
+            kind = rng.choice(["conj", "conj", "lscale", "rscale", "conjH"])
+            c = complex(rng.randint(-3, 3), rng.randint(1, 3))
+            B = {"conj": lambda: sp.linop.Conj(A), "conjH": lambda: sp.linop.Conj(A).H.H, "lscale": lambda: c * A, "rscale": lambda: A * c}[kind]()
+            if int(np.prod(B.ishape)) > 64 or int(np.prod(B.oshape)) > 96:
+                continue
+            xr = lingen.gint(rng, B.ishape, False, -4, 4)              # float64
+            xc = xr.astype(np.complex128)
+            y2 = lingen.gint(rng, B.ishape, True, -4, 4)
+            a = complex(rng.randint(-3, 3), rng.randint(-3, 3))
+            ctx.count("C02:real-dtype:" + kind, key=(kind, repr(B)[:120], k), sample={"kind": kind, "operator": repr(B)[:160]})
+            o_r, o_c = np.asarray(B(xr)), np.asarray(B(xc))
+            if o_r.shape != o_c.shape or not np.allclose(o_r, o_c, rtol=1e-10, atol=1e-10):
+                bad.setdefault("real-dtype:" + kind, ("%s applied to a real-dtype array differs from the same values stored as complex (max diff %.3g): "
+                                                      "the imaginary part is dropped or not conjugated" % (kind, float(np.abs(o_r - o_c).max()) if o_r.shape == o_c.shape else -1),
+                                                      {"operator": repr(B), "input": xr.tolist().__repr__()}))
+            l, r = np.asarray(B(a * xr + y2)), a * o_r + np.asarray(B(y2))
+            if not np.allclose(l, r, rtol=1e-9, atol=1e-9):
+                bad.setdefault("real-dtype-linear:" + kind, ("%s is not linear when x is stored in a real dtype" % kind, {"operator": repr(B)}))
+        except Exception as e:
+            bad.setdefault("real-dtype-exception", ("operator raised %r on a real-dtype input" % e, {"error": repr(e)}))
     new_static = static_scan(ctx)
     ctx.obligation("static:in-place writes through parameter aliases match the reviewed baseline", not new_static)
     if new_static and not any(k.startswith("mutation") for k in bad):
